@@ -344,7 +344,7 @@ PROPS = {
         "tags": ["C08"],
         "theorems": [
             "BPT.Props.C08.items_eq_filter", "BPT.Props.C08.items_all", "BPT.Props.C08.keys_eq", "BPT.Props.C08.values_eq",
-            "BPT.Props.C08.empty_or_inverted", "BPT.Props.C08.mem_items_iff", "BPT.Props.C08.chain_is_leaves",
+            "BPT.Props.C08.empty_or_inverted", "BPT.Props.C08.mem_items_iff", "BPT.Props.C08.items_sorted", "BPT.Props.C08.items_split", "BPT.Props.C08.chain_is_leaves",
             "BPT.Props.C08.items_after_history",
             "BPT.Py.items_spec", "BPT.Py.chain_spec", "BPT.Py.routeLeaf_spec", "BPT.Py.chainFrom_suffix", "BPT.Props.C07.refines_dict",
         ],
